@@ -36,15 +36,20 @@ def main():
                     quick_groups[g] += 1
             for g, ids in sorted(groups.items()):
                 new.append(dict(id="%s-SB-%s-%s" % (prop, fam, g), properties=[prop], status="open", auto=True,
-                                what="Stream B (%s, %s cases 0..%d): %d deterministic cases of the unrestricted generator are rejected "
+                                what="Stream B (%s, %s cases 0..%d): %d deterministic cases of %s are rejected "
                                      "with guard %s on the unchanged tree (engine defect classes E-1..E-9 of DESIGN §7); %d of them are in the quick set"
-                                     % (streamb_version(), fam, nt - 1, len(ids), g, quick_groups[g]),
+                                     % (streamb.family_version(fam), fam, nt - 1, len(ids), generator_kind(fam), g, quick_groups[g]),
                                 case_ids=sorted(ids)))
             print(prop, fam, st["runs"], "runs;", {g: len(i) for g, i in groups.items()})
     data["findings"] = keep + new
     with open(path, "w") as f:
         json.dump(data, f, indent=1)
     print("known_findings.json: %d entries" % len(data["findings"]))
+
+
+def generator_kind(fam):
+    # wording of the auto entries (the v1 wording must stay as committed)
+    return "the enumerated nested-folder scope" if fam.startswith("sb_nest") else "the unrestricted generator"
 
 
 def streamb_version():
